@@ -166,6 +166,9 @@ func main() {
 		}
 		return nil
 	})
+	concurrentReaders(r)
+	r.Floor("conc.snapshot-reads", 20000)
+	r.Floor("conc.pool-rollbacks", 50)
 	r.Floor("snap.audits", 800)
 	r.Floor("snap.reads", 50000)
 	r.Floor("snap.reads.written-key", 5000)
